@@ -194,7 +194,7 @@ func VerifEncodeResponse(status int, hdr http.Header, body []byte, trailerVals h
 	if s.buf.Len() > 0 {
 		trailers, err = verifDecodeHeadersFrame(&s.buf)
 		if err != nil {
-			return fields, nil, err
+			return fields, nil, fmt.Errorf("verif: trailers: %w", err)
 		}
 		if trailers == nil {
 			trailers = []qpack.HeaderField{}
@@ -203,12 +203,15 @@ func VerifEncodeResponse(status int, hdr http.Header, body []byte, trailerVals h
 	return fields, trailers, nil
 }
 
-// VerifEncodeRequestTrailers drives writeTrailers as WriteRequestTrailer does.
+// VerifEncodeRequestTrailers drives the exported WriteRequestTrailer (the method the client calls
+// after the body). written = something was put on the stream.
 func VerifEncodeRequestTrailers(tr http.Header) ([]qpack.HeaderField, bool, error) {
 	buf := &bytes.Buffer{}
-	written, err := writeTrailers(buf, tr, quic.StreamID(0), nil)
-	if err != nil || !written {
-		return nil, written, err
+	if err := newRequestWriter().WriteRequestTrailer(buf, &http.Request{Trailer: tr}, quic.StreamID(0), nil); err != nil {
+		return nil, buf.Len() > 0, err
+	}
+	if buf.Len() == 0 {
+		return nil, false, nil
 	}
 	fs, err := verifDecodeHeadersFrame(buf)
 	return fs, true, err
